@@ -75,7 +75,11 @@ Proof.
   cbn [fr_ok] in S2.
   destruct ps as [|p ps']; unfold ok_s, ok_t, good.
   - apply (step_top c t (HC3 h force []) [] [] (th_ret (gett c t))); auto; top_side.
-  - destruct (own (getp c p) t && oN_eqb (pg_heap (getp c p)) (Some h)) eqn:Eo.
+  - destruct alt.
+    { (* another page first *)
+      apply (step_top c t (HC3 h force (p :: ps')) [] [HC3 h force (ps' ++ [p])]); auto; top_side.
+      rewrite S2. reflexivity. }
+    destruct (own (getp c p) t && oN_eqb (pg_heap (getp c p)) (Some h)) eqn:Eo.
     + apply andb_prop in Eo as [Eo _].
       apply (step_top c t (HC3 h force (p :: ps')) [] [FC1 p force; HC4 h force p ps']); auto; top_side.
       * cbn. rewrite N.eqb_refl. destruct force; reflexivity.
@@ -143,6 +147,15 @@ Proof.
   pose proof (i_wf _ I) as Hwf.
   assert (S2' := S2). cbn [fr_ok forallb] in S2'. apply andb_prop in S2' as [S2' Hps]. apply andb_prop in S2' as [S2' Hbk].
   apply andb_prop in S2' as [Ho Hnb]. apply andb_prop in Hps as [Hp Hps]. apply andb_prop in Hp as [Hown Hheap].
+  destruct alt.
+  { (* another page first: the same set of pages in another order *)
+    unfold ok_s, ok_t, good.
+    apply (step_top c t (HD3 h bk (p :: ps)) [] [HD3 h bk (ps ++ [p])]); auto; top_side.
+    - intros H. cbn. rewrite H. reflexivity.
+    - rewrite Ho, Hnb, Hbk. cbn [andb]. rewrite andb_true_r, forallb_app. cbn [forallb]. rewrite Hps, Hown, Hheap. reflexivity.
+    - cbn [hd_fr_okP]. intros q Ha Hh.
+      pose proof (S4 (HD3 h bk (p :: ps))) as H. rewrite E in H. specialize (H (or_introl eq_refl)). cbn [hd_fr_okP] in H.
+      apply in_or_app. destruct (H q Ha Hh) as [<-|Hin]; [right; left; reflexivity|left; exact Hin]. }
   apply oN_eqb_eq in Hbk. rewrite Hown. cbn [negb]. unfold ok_s, ok_t, good.
   destruct (own_true _ _ Hown) as [Hal Htid].
   destruct (s_back _ (i_S _ I) t bk Hbk) as [Hobk Hbbk].
